@@ -82,9 +82,29 @@ func Verif_C51_NextDefault() { c51Next(1<<22, 0) }
 // Verif_C51_NextDefaultT: as above with instants within 2^26 s (2.1 years).
 func Verif_C51_NextDefaultT() { c51Next(1<<26, 0) }
 
-// Verif_C51_NextRenewBefore: RenewBefore ranges over ALL positive int64 durations.
+// Verif_C51_NextRenewBefore: RenewBefore ranges over ALL positive int64 durations. NOT
+// registered: on an idle machine it takes 30 min and leaves 'renewal not earlier than notAfter -
+// threshold' unknown on the uncapped path in every back end (also with RenewBefore < 2^52 ns).
 func Verif_C51_NextRenewBefore() {
 	rb := time.Duration(verifrt.I64())
 	verifrt.Assume(rb > 0)
+	c51Next(1<<22, rb)
+}
+
+// Verif_C51_NextRenewBeforeSmall: RenewBefore over all durations 1..16 ns: the region where
+// threshold/10 reaches 0 (the Int63n panic repaired in 7d4e3ca); instants within 64 s of the
+// base, all nanosecond offsets. (With instants within 2^22 s the same harness needs 20 min on an
+// idle machine, 16 of them in five branch-feasibility queries no back end decides.)
+func Verif_C51_NextRenewBeforeSmall() {
+	rb := time.Duration(verifrt.I64())
+	verifrt.Assume(rb > 0 && rb <= 16)
+	c51Next(1<<6, rb)
+}
+
+// Verif_C51_NextRenewBeforeCapped: RenewBefore over all durations above the 30-day cap (the
+// threshold is then the constant 30 days).
+func Verif_C51_NextRenewBeforeCapped() {
+	rb := time.Duration(verifrt.I64())
+	verifrt.Assume(rb > 30*24*time.Hour)
 	c51Next(1<<22, rb)
 }
